@@ -18,7 +18,7 @@ DEFAULT_PROFILE = {
   "add_record": 14, "bulk_add": 6, "update_record": 14, "bulk_update": 6, "remove_record": 7,
   "bulk_remove": 3, "replace_data": 1,
   "add_column": 5, "add_formula_column": 5, "remove_column": 3, "rename_column": 4,
-  "modify_type": 5, "modify_formula": 3, "to_formula": 1, "to_data": 1, "label_change": 1,
+  "modify_type": 5, "modify_formula": 3, "to_formula": 2.5, "to_data": 1, "label_change": 1,
   "add_table": 2, "remove_table": 1, "rename_table": 2, "duplicate_table": 0.5,
   "summary": 2, "update_summary": 1, "detach_summary": 0.3,
   "add_ref_column": 2, "reverse_column": 1,
@@ -44,6 +44,7 @@ DEFAULT_PROFILE = {
   "hide_field": 0.5,
   "retype_empty": 1,
   "replace_with_trigger": 3,
+  "column_cycle": 0.7, "summary_chain": 0.7, "resave_formula": 1.5, "rename_retype": 2.5,
   "remove_readd": 2,
   "add_empty_column": 2,
   "stale_undo": 1,
@@ -263,6 +264,13 @@ class Gen(object):
         tf = [c for c in w.visible_cols(tgt) if c["isFormula"] and c["formula"] and not (tgt is t and c["colId"] == avoid)]
         if tf:
           opts += ["$%s.%s" % (r["colId"], rng.choice(tf)["colId"])]
+    if fcols_here:
+      # a formula that reads ANOTHER formula column only for some rows (so its own column's recalculation can be
+      # suspended part-way by a dirty read and resumed later)
+      g = rng.choice(fcols_here)["colId"]
+      base = ("$%s" % rng.choice(nums)["colId"]) if nums else "$id"
+      opts += ["$%s if $id %% 2 == 0 else %s" % (g, base), "$%s if $id > 1 else %s" % (g, base),
+               "%s if $id <= 1 else $%s" % (base, g), "$%s if %s else %s" % (g, base, base)] * 2
     opts += ["$id * 3", "1 + 1", "'k'", "None"]
     if rng.random() < 0.5:
       # a column that does not exist (yet): AttributeError now; a later rename / add under exactly this id
@@ -684,8 +692,14 @@ class Gen(object):
     c = self.rng.choice(w.data_cols(t))
     if c["reverseCol"]:
       return None
-    return ["ModifyColumn", t["tableId"], c["colId"],
-            {"isFormula": True, "formula": self.formula_for(w, t, avoid=c["colId"])}]
+    info = {"isFormula": True, "formula": self.formula_for(w, t, avoid=c["colId"])}
+    if self.rng.random() < 0.35:
+      # type change and conversion to a formula column in ONE ModifyColumn: the stored values are converted
+      # (a pending change) and then replaced by the formula's results in the same bundle
+      info["type"] = self.rng.choice([x for x in ["Int", "Numeric", "Text", "Bool", "Choice", "Any"] if x != c["type"]])
+      if self.rng.random() < 0.4:
+        return ["UpdateRecord", "_grist_Tables_column", c["ref"], info]
+    return ["ModifyColumn", t["tableId"], c["colId"], info]
 
   def g_to_data(self, w):
     t = self._table(w)
@@ -1134,6 +1148,100 @@ class Gen(object):
       return ([["RemoveColumn", t["tableId"], c["colId"]], ["AddColumn", t["tableId"], c["colId"], {"type": newt}]],)
     return ["ModifyColumn", t["tableId"], c["colId"], {"type": newt}]
 
+  def g_resave_formula(self, w):
+    """The same formula saved again with only trailing white space added or dropped (an editor's final newline),
+    through ModifyColumn or the column's metadata record."""
+    if not self.formulas:
+      return None
+    rng = self.rng
+    cands = [(t, c) for t in w.user_tables() for c in w.formula_cols(t) if c["formula"] and c["colId"] != "group"]
+    if not cands:
+      return None
+    t, c = rng.choice(cands)
+    f = c["formula"]
+    newf = f.rstrip() if (f != f.rstrip() and rng.random() < 0.6) else f + rng.choice(["\n", " ", "\n\n", "  \n", "\t"])
+    if rng.random() < 0.5:
+      return ["UpdateRecord", "_grist_Tables_column", c["ref"], {"formula": newf}]
+    return ["ModifyColumn", t["tableId"], c["colId"], {"formula": newf}]
+
+  def g_rename_retype(self, w):
+    """One bundle that renames a data column (or its table) and THEN changes that column's type so that stored
+    values really convert (Text '12' -> Int 12, Int 3 -> Text '3'): the conversion's value changes are recorded under
+    the new name and have to be traced back to the old one for the undo / the rollback."""
+    rng = self.rng
+    pref = {"Int": ["Text", "Bool", "Numeric"], "Numeric": ["Text", "Int"], "Text": ["Int", "Numeric", "Bool"],
+            "Bool": ["Int", "Text"], "Choice": ["Int", "Text"], "Any": ["Text", "Int"]}
+    cands = [(t, c) for t in w.user_tables() if t["rows"] for c in w.data_cols(t)
+             if c["type"] in pref and not c["reverseCol"] and not c["summarySourceCol"]]
+    if not cands:
+      return None
+    t, c = rng.choice(cands)
+    newt = rng.choice(pref[c["type"]])
+    r = rng.random()
+    if r < 0.55:
+      self.n_names += 1
+      new = "rr%d" % self.n_names
+      return ([["RenameColumn", t["tableId"], c["colId"], new],
+               ["ModifyColumn", t["tableId"], new, {"type": newt}]],)
+    if r < 0.8:
+      self.n_names += 1
+      newtab = "Trr%d" % self.n_names
+      return ([["RenameTable", t["tableId"], newtab],
+               ["ModifyColumn", newtab, c["colId"], {"type": newt}]],)
+    self.n_names += 1
+    new = "rr%d" % self.n_names
+    return ([["ModifyColumn", t["tableId"], c["colId"], {"type": newt}],
+             ["RenameColumn", t["tableId"], c["colId"], new]],)
+
+  def g_column_cycle(self, w):
+    """Two formula columns that form a cycle at the COLUMN level but not at the cell level, through a reference to
+    the next row: A = $B if $id == 1 else $x ; B = ($nxt.A + 1) if $nxt else 0.  Whichever column the update loop
+    enters first meets a locked cell of its own column on the way; that is not a circular reference."""
+    if not self.formulas:
+      return None
+    rng = self.rng
+    ts = [t for t in w.user_tables() if len(t["rows"]) >= 2]
+    if not ts:
+      return None
+    t = rng.choice(ts)
+    nums = [c for c in w.data_cols(t) if c["type"] in ("Int", "Numeric") and not c["isFormula"]]
+    if not nums:
+      return ["AddColumn", t["tableId"], self.new_name(), {"type": "Int", "isFormula": False}]
+    x = rng.choice(nums)["colId"]
+    self.n_names += 1
+    tag = "%d" % self.n_names
+    # names chosen so that either column may sort first
+    a, b = rng.choice([("ca_" + tag, "cb_" + tag), ("cz_" + tag, "cb_" + tag)])
+    nxt = "nxt_" + tag
+    rows = list(t["rows"])
+    nxts = rows[1:] + [0]
+    num = "($%s if isinstance($%s, (int, float)) else 0)" % (x, x)
+    return ([["AddColumn", t["tableId"], nxt, {"type": "Ref:%s" % t["tableId"], "isFormula": False}],
+             ["BulkUpdateRecord", t["tableId"], rows, {nxt: nxts}],
+             ["AddColumn", t["tableId"], a, {"type": "Any", "isFormula": True,
+                                              "formula": "$%s if $id == %d else %s" % (b, rows[0], num)}],
+             ["AddColumn", t["tableId"], b, {"type": "Any", "isFormula": True,
+                                              "formula": "($%s.%s + 1) if $%s else 0" % (nxt, a, nxt)}]],)
+
+  def g_summary_chain(self, w):
+    """A CHAIN of summary tables: a reference column pointing at rows of a summary table, and a summary of ITS
+    table grouped by that reference column - emptying a group of the first summary removes a row there, which
+    regroups the second source and empties a group of the second summary in the same bundle."""
+    rng = self.rng
+    sums = [s_ for s_ in w.user_tables(summary=True) if s_["rows"]]
+    ts = [t for t in w.user_tables() if t["rows"]]
+    if not sums or not ts:
+      return None
+    st = rng.choice(sums)
+    t = rng.choice(ts)
+    if t["ref"] == st["summarySource"] and len(ts) > 1:
+      t = rng.choice([x for x in ts if x["ref"] != st["summarySource"]])
+    name = self.new_name()
+    next_ref = max(list(w.cols_by_ref) + [0]) + 1
+    return ([["AddColumn", t["tableId"], name, {"type": "Ref:%s" % st["tableId"], "isFormula": False}],
+             ["BulkUpdateRecord", t["tableId"], list(t["rows"]), {name: [rng.choice(st["rows"]) for _ in t["rows"]]}],
+             ["CreateViewSection", t["ref"], 0, "record", [next_ref], None]],)
+
   def g_hide_field(self, w):
     """Hide a column in a widget (remove the view field), preferring group-by fields of summary widgets."""
     widgets = set(s_["id"] for s_ in w.sections if s_.get("parentId"))      # sections placed on a page
@@ -1298,7 +1406,8 @@ class Gen(object):
     structural = [k for k in ("reverse_column", "summary", "update_summary", "rename_column", "rename_table",
                               "modify_type", "remove_column", "remove_table", "add_ref_column", "display_formula",
                               "add_rule", "duplicate_table", "to_formula", "to_data", "detach_summary",
-                              "remove_view_stuff", "type_change_write") if self.profile.get(k, 0) > 0]
+                              "remove_view_stuff", "type_change_write", "rename_retype", "rename_retype")
+                  if self.profile.get(k, 0) > 0]
     for _ in range(8):
       kind = rng.choice(structural if structural and rng.random() < 0.7 else kinds)
       if rng.random() < 0.25:
@@ -1315,6 +1424,15 @@ class Gen(object):
       if ua is None:
         continue
       uas = list(ua[0]) if isinstance(ua, tuple) else [ua]
+      if rng.random() < 0.4:
+        # a second step on what the first one touched: rename then retype (or retype then rename) the same column
+        first = uas[0]
+        if first[0] == "RenameColumn" and len(first) == 4 and isinstance(first[3], str) and first[3].isidentifier():
+          uas.append(["ModifyColumn", first[1], first[3], {"type": rng.choice(["Int", "Text", "Numeric", "Bool"])}])
+        elif first[0] == "ModifyColumn" and "type" in (first[3] or {}):
+          uas.append(["RenameColumn", first[1], first[2], self.new_name()])
+        elif first[0] == "RenameTable" and len(first) == 3:
+          pass
       t = self._table(w)
       tid = t["tableId"] if t else "T1"
       bad = rng.choice([["RemoveColumn", tid, "no_such_column_xyz"], ["AddRecord", "NoSuchTable", None, {}],
